@@ -440,6 +440,64 @@ def replay_e2(c):
     return None
 
 
+# ---------------------------------------------------------------- argv
+
+ARGV_FLAGS = [('--ignore-output', 'ignore_output'),
+              ('--ignore-out', 'ignore_out'), ('--ignore-err', 'ignore_err'),
+              ('--ignore-output-cc', 'ignore_output_cc'),
+              ('--unchecked', 'unchecked')]
+ARGV_VALUES = [('--match-out', 'match_out', 'mo'),
+               ('--match-err', 'match_err', 'me'),
+               ('--match-out-cc', 'match_out_cc', 'moc'),
+               ('--match-err-cc', 'match_err_cc', 'mec'),
+               ('--timeout', 'timeout', 2.5), ('--timeout-cc', 'timeout_cc', 7.0),
+               ('-c', 'cmd_cc', 'ref --x')]
+
+
+def argv_once(bits):
+    """The real option parser on one combination of the comparison options:
+    every option sets exactly its own field (E3: the combination is the
+    choice vector)."""
+    from ddsmt import options, mutators
+    argv = []
+    want = {}
+    k = 0
+    for flag, field in ARGV_FLAGS:
+        on = bool(bits[k])
+        k += 1
+        if on:
+            argv.append(flag)
+        want[field] = on
+    for flag, field, val in ARGV_VALUES:
+        on = bool(bits[k])
+        k += 1
+        if on:
+            argv += [flag, str(val)]
+        want[field] = (val if field != 'cmd_cc' else val.split()) if on \
+            else None
+    argv += ['in.smt2', 'out.smt2', 'solver', '--opt']
+    try:
+        ns = options.parse_options(mutators, argv)
+    except SystemExit as e:
+        return f'parse_options({argv!r}) exited with {e.code!r}'
+    for field, w in want.items():
+        got = getattr(ns, field)
+        if got != w and not (w is None and not got):
+            return (f'{argv!r}: option field {field} = {got!r}, but the '
+                    f'command line says {w!r}')
+    if ns.cmd != ['solver', '--opt'] or ns.infile != 'in.smt2' \
+            or ns.outfile != 'out.smt2':
+        return f'{argv!r}: positional arguments read as {ns.cmd!r}'
+    return None
+
+
+def run_argv():
+    from vlib.engine import explore_choices
+    n = len(ARGV_FLAGS) + len(ARGV_VALUES)
+    return explore_choices(
+        lambda vec: (argv_once(vec), set(range(n))), n, budget_s=250)
+
+
 def partitions(tier):
     m = bounds(tier)['max_str_len']
     parts = []
@@ -482,6 +540,9 @@ def partitions(tier):
                   'bounds': {'strings': 'unbounded', 'streams': 'optional'}})
     parts.append({'name': 'unchecked', 'fn': make_unchecked(),
                   'budget_s': 100})
+    parts.append({'name': 'argv', 'kind': 'choices', 'run': run_argv,
+                  'budget_s': 300,
+                  'bounds': {'options': len(ARGV_FLAGS) + len(ARGV_VALUES)}})
     return parts
 
 
@@ -497,6 +558,8 @@ def replay(part, cex):
             return _invoke_body(cex)
         if part == 'unchecked':
             return _unchecked_accepts(cex)
+        if part == 'argv':
+            return argv_once(cex['bits'])
     except Exception as e:
         return f'{type(e).__name__}: {e}'
     return None
